@@ -203,6 +203,10 @@ fn cmd_check(id: &str, args: &[String]) -> i32 {
         println!("NOTE property={id}: {hung} runs exceeded the tick watchdog and were counted as blocked (termination is judged by C04)");
     }
 
+    if let Some(n) = res.cov.counters.get("aborted_items_after_200_hung_runs") {
+        println!("NOTE property={id}: {n} work items were not expanded because the tree under test keeps exceeding the watchdog; the coverage of this run is partial");
+    }
+
     // group violations by (oracle, classification); keep the first of each group
     let mut groups: BTreeMap<(String, Option<String>), (usize, u64)> = BTreeMap::new();
     for (fi, f) in res.found.iter().enumerate() {
